@@ -3,12 +3,17 @@
 // Enumeration: one variable node per (AccessLevel option x UserAccessLevel
 // option x history x path); options = {absent, uint8 0, uint8 CurrentRead,
 // uint8 CurrentWrite, uint8 Read|Write, uint32 Read (wrong type), null Variant,
-// DataValue without a Variant}; histories = every sequence of length 0..3 over
+// DataValue without a Variant, and four uint8 masks with bits other than
+// CurrentRead / CurrentWrite set: Read|StatusWrite (0x21), Read|TimestampWrite
+// (0x41), StatusWrite|TimestampWrite (0x60), every bit but Read and Write
+// (0xFC)}; histories = every sequence of length 0..3 over
 // {read value, write v1, write v2, write AccessLevel := Read|Write, write
-// UserAccessLevel := Read|Write}; paths = direct (NameSpace.Attribute /
-// SetAttribute, panic recovered) and wire (real client Read / Write over
-// loopback TCP). Every history gets its own node, so each starts from the same
-// initial value.
+// UserAccessLevel := Read|Write} plus every sequence of length 0..2 (thorough
+// 0..3) over these and three more value writes whose DataValue carries, besides
+// the value, a status code (Good), a source timestamp, or both; paths = direct
+// (NameSpace.Attribute / SetAttribute, panic recovered) and wire (real client
+// Read / Write over loopback TCP). Every history gets its own node, so each
+// starts from the same initial value.
 //
 // Oracle: a register guarded by the two masks. The masks of the reference
 // change only through an access level attribute write that the reference
@@ -35,6 +40,7 @@ import (
 	"context"
 	"fmt"
 	"os"
+	"time"
 
 	"github.com/gopcua/opcua"
 	"github.com/gopcua/opcua/server"
@@ -46,11 +52,11 @@ import (
 type c31Case struct {
 	AL   int    `json:"access_level"`
 	UAL  int    `json:"user_access_level"`
-	Hist string `json:"history"` // letters R, A (write v1), B (write v2), L (write AccessLevel := 3), U (write UserAccessLevel := 3)
+	Hist string `json:"history"` // letters R, A (write v1), B (write v2), L (write AccessLevel := 3), U (write UserAccessLevel := 3), S (write v2 + status code), T (write v1 + source timestamp), X (write v2 + status code + source timestamp)
 	Path string `json:"path"`
 }
 
-var c31OptNames = []string{"absent", "u8:0", "u8:Read", "u8:Write", "u8:ReadWrite", "u32:Read", "nullVariant", "noVariant"}
+var c31OptNames = []string{"absent", "u8:0", "u8:Read", "u8:Write", "u8:ReadWrite", "u32:Read", "nullVariant", "noVariant", "u8:Read|StatusWrite", "u8:Read|TimestampWrite", "u8:StatusWrite|TimestampWrite", "u8:allButReadWrite"}
 
 const (
 	c31V0 = int32(100)
@@ -76,6 +82,14 @@ func c31Attr(opt int) (*ua.DataValue, bool) {
 		return &ua.DataValue{EncodingMask: ua.DataValueValue, Value: &ua.Variant{}}, true
 	case 7:
 		return &ua.DataValue{}, true
+	case 8:
+		return server.DataValueFromValue(uint8(ua.AccessLevelTypeCurrentRead | ua.AccessLevelTypeStatusWrite)), true
+	case 9:
+		return server.DataValueFromValue(uint8(ua.AccessLevelTypeCurrentRead | ua.AccessLevelTypeTimestampWrite)), true
+	case 10:
+		return server.DataValueFromValue(uint8(ua.AccessLevelTypeStatusWrite | ua.AccessLevelTypeTimestampWrite)), true
+	case 11:
+		return server.DataValueFromValue(uint8(0xFC)), true
 	}
 	panic("bad option")
 }
@@ -132,14 +146,13 @@ func (r c31Ref) determined() bool {
 
 const c31Ops = "RABLU"
 
-func c31Histories() []string {
+// c31OpsWide adds value writes whose DataValue carries more than the value:
+// S = v2 + status code, T = v1 + source timestamp, X = v2 + both.
+const c31OpsWide = "RABLUSTX"
+
+func c31Seqs(ops string, maxLen int) []string {
 	out := []string{""}
-	ops := c31Ops
 	prev := []string{""}
-	maxLen := 3
-	if evid.Thorough() {
-		maxLen = 5
-	}
 	for l := 1; l <= maxLen; l++ {
 		var cur []string
 		for _, p := range prev {
@@ -149,6 +162,27 @@ func c31Histories() []string {
 		}
 		out = append(out, cur...)
 		prev = cur
+	}
+	return out
+}
+
+// c31Histories: every sequence over the plain alphabet up to length 3 (thorough
+// 5), then the sequences over the wide alphabet up to length 2 (thorough 3)
+// that are not among them.
+func c31Histories() []string {
+	maxLen, maxWide := 3, 2
+	if evid.Thorough() {
+		maxLen, maxWide = 5, 3
+	}
+	out := c31Seqs(c31Ops, maxLen)
+	seen := map[string]bool{}
+	for _, h := range out {
+		seen[h] = true
+	}
+	for _, h := range c31Seqs(c31OpsWide, maxWide) {
+		if !seen[h] {
+			out = append(out, h)
+		}
 	}
 	return out
 }
@@ -230,8 +264,27 @@ func (e *c31Exec) write(c c31Case, nid *ua.NodeID, v int32) (res opResult) {
 	return e.writeAttr(c, nid, ua.AttributeIDValue, v)
 }
 
-func (e *c31Exec) writeAttr(c c31Case, nid *ua.NodeID, attr ua.AttributeID, v any) (res opResult) {
+var c31Stamp = time.Date(2020, 2, 2, 2, 2, 2, 0, time.UTC)
+
+// writeWide writes the value with a DataValue that also carries a status code (Good) and / or a source timestamp.
+func (e *c31Exec) writeWide(c c31Case, nid *ua.NodeID, v int32, status, stamp bool) (res opResult) {
 	dv := &ua.DataValue{EncodingMask: ua.DataValueValue, Value: ua.MustVariant(v)}
+	if status {
+		dv.EncodingMask |= ua.DataValueStatusCode
+		dv.Status = ua.StatusOK
+	}
+	if stamp {
+		dv.EncodingMask |= ua.DataValueSourceTimestamp
+		dv.SourceTimestamp = c31Stamp
+	}
+	return e.writeDV(c, nid, ua.AttributeIDValue, dv)
+}
+
+func (e *c31Exec) writeAttr(c c31Case, nid *ua.NodeID, attr ua.AttributeID, v any) (res opResult) {
+	return e.writeDV(c, nid, attr, &ua.DataValue{EncodingMask: ua.DataValueValue, Value: ua.MustVariant(v)})
+}
+
+func (e *c31Exec) writeDV(c c31Case, nid *ua.NodeID, attr ua.AttributeID, dv *ua.DataValue) (res opResult) {
 	if c.Path == "direct" {
 		defer func() {
 			if p := recover(); p != nil {
@@ -273,6 +326,12 @@ func (e *c31Exec) run(c c31Case, n *server.Node) (viol [][2]string, steps []c31S
 			res = e.write(c, nid, c31V1)
 		case 'B':
 			res = e.write(c, nid, c31V2)
+		case 'S':
+			res = e.writeWide(c, nid, c31V2, true, false)
+		case 'T':
+			res = e.writeWide(c, nid, c31V1, false, true)
+		case 'X':
+			res = e.writeWide(c, nid, c31V2, true, true)
 		case 'L':
 			res = e.writeAttr(c, nid, ua.AttributeIDAccessLevel, uint8(ua.AccessLevelTypeCurrentRead|ua.AccessLevelTypeCurrentWrite))
 		case 'U':
@@ -313,14 +372,16 @@ func (e *c31Exec) run(c c31Case, n *server.Node) (viol [][2]string, steps []c31S
 			ref = c31Ref{al: c31MaskOf(dvA, okA), ual: c31MaskOf(dvU, okU)}
 		default:
 			v := any(c31V1)
-			if op == 'B' {
+			if op == 'B' || op == 'S' || op == 'X' {
 				v = any(c31V2)
 			}
+			// a write whose DataValue carries more than the value gets its own signatures
+			wide := map[rune]string{'S': "/DataValue-with-status-code", 'T': "/DataValue-with-source-timestamp", 'X': "/DataValue-with-status-code-and-source-timestamp"}[op]
 			switch {
 			case writeForbidden && res.status == ua.StatusOK:
-				add("access/write/accepted-although-CurrentWrite-missing", "write answered Good")
+				add("access/write/accepted-although-CurrentWrite-missing"+wide, "write answered Good")
 			case determined && !writeForbidden && res.status != ua.StatusOK:
-				add("access/write/refused-although-CurrentWrite-granted", fmt.Sprintf("write answered %v", res.status))
+				add("access/write/refused-although-CurrentWrite-granted"+wide, fmt.Sprintf("write answered %v", res.status))
 			}
 			if res.status == ua.StatusOK && !writeForbidden {
 				reg = v
@@ -393,8 +454,8 @@ func c31() {
 	deaths := evid.Sharded(r, 0, func(s evid.ShardInfo, w *evid.Run) {
 		var mine []c31Case
 		idx := int64(0)
-		for al := 0; al < 8; al++ {
-			for ual := 0; ual < 8; ual++ {
+		for al := 0; al < len(c31OptNames); al++ {
+			for ual := 0; ual < len(c31OptNames); ual++ {
 				my := s.Mine(idx)
 				idx++
 				if !my {
@@ -464,7 +525,7 @@ func c31() {
 		r.Violate("access/wire/server-died/"+fn, fmt.Sprintf("worker died while running %s\n%s\n%s", d.LastCase, head, lastLines(d.Stderr, 30)), d.LastCase)
 		r.Capped(fmt.Sprintf("worker %d died; the rest of its shard was not run", d.Shard))
 	}
-	r.Rule(fmt.Sprintf("8 AccessLevel options x 8 UserAccessLevel options (absent, uint8 0/Read/Write/Read|Write, uint32 Read, null Variant, DataValue without Variant) x %d histories (all sequences of length 0..3 (thorough: 0..5) over read value, write value v1, write value v2, write AccessLevel := Read|Write, write UserAccessLevel := Read|Write) x 2 paths (direct namespace call, real client over TCP), each on its own node; non-trivial = non-empty history on a node with at least one of the two attributes present; distinct = (AccessLevel option, UserAccessLevel option, history)", len(hists)))
+	r.Rule(fmt.Sprintf("12 AccessLevel options x 12 UserAccessLevel options (absent, uint8 0/Read/Write/Read|Write, uint32 Read, null Variant, DataValue without Variant, uint8 Read|StatusWrite 0x21, Read|TimestampWrite 0x41, StatusWrite|TimestampWrite 0x60, all bits but Read and Write 0xFC) x %d histories (all sequences of length 0..3 (thorough: 0..5) over read value, write value v1, write value v2, write AccessLevel := Read|Write, write UserAccessLevel := Read|Write, plus all sequences of length 0..2 (thorough: 0..3) over these and three value writes whose DataValue also carries a status code (Good), a source timestamp, or both) x 2 paths (direct namespace call, real client over TCP), each on its own node; non-trivial = non-empty history on a node with at least one of the two attributes present; distinct = (AccessLevel option, UserAccessLevel option, history)", len(hists)))
 	r.Assume("the reference masks change only through an AccessLevel / UserAccessLevel write made while no well-typed mask lacks CurrentWrite (then they become what the node holds afterwards); the status of these attribute writes is not judged", "absent attribute = no requirement; mistyped or null attribute = refusal or grant both accepted (only register consistency is judged); a panic inside the access check is counted as not judged here (crash property C29)")
 	r.Set("histories", len(hists))
 	r.Finish()
